@@ -14,9 +14,23 @@ pub enum Dec {
 
 /// One decode under fuel and catch_unwind. Returns the outcome and the ticks used.
 pub fn decode_guarded(data: &[u8]) -> (Dec, u64) {
+    let (d, u, _) = decode_measured(data);
+    (d, u)
+}
+
+/// As `decode_guarded`, also returning (largest single allocation request, total bytes requested)
+/// of the decode on this thread.
+pub fn decode_measured(data: &[u8]) -> (Dec, u64, (usize, usize)) {
     let budget = 64 * data.len() as u64 + 1024;
     verif::set_fuel(Some(budget));
+    crate::alloc_track::start();
     let r = catch_unwind(AssertUnwindSafe(|| wire::decode(data)));
+    let mem = crate::alloc_track::stop();
+    let (d, u) = decode_finish(r, budget);
+    (d, u, mem)
+}
+
+fn decode_finish(r: std::thread::Result<Result<wire::Msg, mdns_sd::Error>>, budget: u64) -> (Dec, u64) {
     let left = verif::fuel_left();
     verif::set_fuel(None);
     let used = budget - left.unwrap_or(0);
@@ -117,9 +131,18 @@ const CRATE_TYPES: [u16; 8] = [T_A, T_CNAME, T_PTR, T_HINFO, T_TXT, T_AAAA, T_SR
 /// All oracles for one datagram.
 pub fn check_datagram(data: &[u8], res: &mut CaseResult) {
     let n = data.len();
-    let (dec, used) = decode_guarded(data);
+    let (dec, used, (mem_max, mem_sum)) = decode_measured(data);
     res.transitions += 1;
     res.count("decoder_ticks", used);
+    // memory asked for while decoding stays proportional to the datagram: no single request above
+    // 32 n + 4096 bytes, no more than 512 n + 65536 bytes in total (a 2-byte compressed name may
+    // expand to 255 bytes, a minimal 11-byte record to a boxed record plus its copy in the dump)
+    if mem_max > 32 * n + 4096 {
+        res.viols.push(viol("C01|memory|single-allocation-request-out-of-proportion", format!("{} bytes requested at once while decoding a {}-byte datagram {}", mem_max, n, truncate(&hex(data), 200))));
+    } else if mem_sum > 512 * n + 65536 {
+        res.viols.push(viol("C01|memory|total-requested-out-of-proportion", format!("{} bytes requested in total while decoding a {}-byte datagram {}", mem_sum, n, truncate(&hex(data), 200))));
+    }
+    res.count("allocation_bytes_requested", mem_sum as u64);
     let mut h = crate::sim::fnv128(data) & 0xFFFF; // outcome class, refined below
     match dec {
         Dec::Fuel => {
